@@ -170,11 +170,14 @@ func WalkFrom(fn *ssa.Function, start, prev *ssa.BasicBlock, cfg WalkCfg) ([]*Pa
 	return w.paths, nil
 }
 
+// isLocalCell: the cell's contents can be tracked flow-sensitively in its owning function: it
+// is only loaded and stored directly, or captured by closures that never store to it.
 func isLocalCell(a *ssa.Alloc) bool {
 	refs := a.Referrers()
 	if refs == nil {
 		return true
 	}
+	captured := false
 	for _, r := range *refs {
 		switch r := r.(type) {
 		case *ssa.Store:
@@ -186,8 +189,63 @@ func isLocalCell(a *ssa.Alloc) bool {
 				return false
 			}
 		case *ssa.DebugRef:
+		case *ssa.MakeClosure:
+			captured = true
 		default:
 			return false
+		}
+	}
+	if captured {
+		for _, st := range storesTo(a) {
+			if st.Parent() != a.Parent() {
+				return false
+			}
+		}
+		// the closures must use the captured cell only for loads (not pass its address on)
+		if !freeVarOnlyLoaded(a, map[ssa.Value]bool{}) {
+			return false
+		}
+	}
+	return true
+}
+
+func freeVarOnlyLoaded(v ssa.Value, seen map[ssa.Value]bool) bool {
+	if seen[v] {
+		return true
+	}
+	seen[v] = true
+	refs := v.Referrers()
+	if refs == nil {
+		return true
+	}
+	for _, r := range *refs {
+		mc, ok := r.(*ssa.MakeClosure)
+		if !ok {
+			continue
+		}
+		fn := mc.Fn.(*ssa.Function)
+		for i, b := range mc.Bindings {
+			if b != v || i >= len(fn.FreeVars) {
+				continue
+			}
+			fv := fn.FreeVars[i]
+			if fr := fv.Referrers(); fr != nil {
+				for _, u := range *fr {
+					switch u := u.(type) {
+					case *ssa.UnOp:
+						if u.Op != token.MUL {
+							return false
+						}
+					case *ssa.DebugRef:
+					case *ssa.MakeClosure:
+						if !freeVarOnlyLoaded(fv, seen) {
+							return false
+						}
+					default:
+						return false
+					}
+				}
+			}
 		}
 	}
 	return true
